@@ -8,6 +8,8 @@ import (
 	"go/token"
 	"go/types"
 	"strings"
+
+	"golang.org/x/tools/go/packages"
 )
 
 func init() { register("C10", checkC10) }
@@ -30,6 +32,8 @@ func checkC10(ctx *Ctx, r *Report) {
 	c10NoBreakOutOfFieldLoops(ctx, r)
 	c10ConstantRefToEnum(ctx, r)
 	c10OpenAPITypedDefaults(ctx, r)
+	c10GoDateTimeDefaults(ctx, r)
+	c10OverrideReplacesFieldDefault(ctx, r)
 	c10GoNestedOverrideRecurses(ctx, r)
 	inProgressRestored(ctx, r, []string{"internal/jennies/golang/rawtypes.go", "internal/jennies/java/types.go"}, 2)
 }
@@ -741,7 +745,10 @@ func c10WalkersReadDefault(ctx *Ctx, r *Report) {
 				fobj, _ := info.Defs[fd.Name].(*types.Func)
 				n++
 				cons := ctx.FuncName(fobj) + " carries default"
-				if why, ok := c10WalkerExemptions[fd.Name.Name]; ok {
+				// JSON Schema from 2019-09 on — the dialect the parsing library assumes when `$schema` is absent — applies the
+				// keywords written next to `$ref`, oneOf and anyOf: the exemptions for these three only hold for OpenAPI 3.0
+				jsonSchemaOnly := rel == "internal/jsonschema" && (fd.Name.Name == "walkRef" || fd.Name.Name == "walkOneOf" || fd.Name.Name == "walkAnyOf")
+				if why, ok := c10WalkerExemptions[fd.Name.Name]; ok && !jsonSchemaOnly {
 					r.OK("frontier/default-read", cons, fd.Pos(), "reviewed: "+why)
 					continue
 				}
@@ -1504,4 +1511,136 @@ func c10GoNestedOverrideRecurses(ctx *Ctx, r *Report) {
 	})
 	r.Count("override branches of golang.defaultsForStructRec", n)
 	r.Floor("override branches of golang.defaultsForStructRec", 1)
+}
+
+// c10GoDateTimeDefaults: the Go type formatter declares a string carrying the date-time hint as time.Time; the
+// schema gives its default as a string. The function that formats the defaults of the Go constructor tests that hint
+// (and produces a time value): otherwise the constructor assigns a string literal to a time.Time field and the
+// package does not compile.
+func c10GoDateTimeDefaults(ctx *Ctx, r *Report) {
+	p := ctx.Pkg("internal/jennies/golang")
+	if p == nil {
+		r.Undecided("anchor lost: internal/jennies/golang")
+		return
+	}
+	info := p.TypesInfo
+	// does the type formatter map the hint to time.Time at all?
+	maps := false
+	for _, f := range p.Syntax {
+		ast.Inspect(f, func(n ast.Node) bool {
+			if c, ok := n.(*ast.CallExpr); ok {
+				if fn := callee(info, c); fn != nil && fn.Name() == "HasHint" && len(c.Args) == 1 && strings.HasSuffix(exprString(c.Args[0]), "HintStringFormatDateTime") {
+					if fd := enclosingFuncDecl(p, c.Pos()); fd != nil && strings.Contains(strings.ToLower(fd.Name.Name), "formattype") {
+						maps = true
+					}
+				}
+			}
+			return true
+		})
+	}
+	if !maps {
+		r.OK("kinds/go-datetime-default", "golang default formatter knows date-time", token.NoPos, "the Go type formatter does not map the date-time hint to another type: nothing to agree with")
+		return
+	}
+	fn := ctx.LookupMethod("internal/jennies/golang", "RawTypes", "formatDefaultValue")
+	fd, _ := ctx.DeclOf(fn)
+	if fd == nil || fd.Body == nil {
+		r.Undecided("anchor lost: golang.RawTypes.formatDefaultValue")
+		return
+	}
+	tests := false
+	ast.Inspect(fd.Body, func(n ast.Node) bool {
+		if c, ok := n.(*ast.CallExpr); ok {
+			if f := callee(info, c); f != nil && f.Name() == "HasHint" && len(c.Args) == 1 && strings.HasSuffix(exprString(c.Args[0]), "HintStringFormatDateTime") {
+				tests = true
+			}
+		}
+		return true
+	})
+	r.Check(tests, "kinds/go-datetime-default", "golang default formatter knows date-time", fd.Pos(), "formatDefaultValue tests the date-time hint",
+		"the Go type formatter declares date-time strings as time.Time but formatDefaultValue prints every scalar default with formatScalar: `At: \"2020-01-02T03:04:05Z\"` on a time.Time field — the generated package does not compile, NewRoot() does not exist, while Python yields the default")
+}
+
+func enclosingFuncDecl(p *packages.Package, pos token.Pos) *ast.FuncDecl {
+	for _, f := range p.Syntax {
+		if f.FileStart <= pos && pos <= f.FileEnd {
+			for _, d := range f.Decls {
+				if fd, ok := d.(*ast.FuncDecl); ok && fd.Pos() <= pos && pos <= fd.End() {
+					return fd
+				}
+			}
+		}
+	}
+	return nil
+}
+
+// c10OverrideReplacesFieldDefault: a struct default gives values for some fields of the referred struct
+// (`inner: #Inner | *{e: "b"}`). For an overridden field that is itself typed by a reference the python and php
+// jennies recurse into the field's type; an override that is not an object (an enum member, a scalar alias) has to
+// travel with that recursion as the default of the type, or the value is recomputed from the field's own default.
+// In defaultValueForTypeRec of both languages, the closure over the overrides assigns the override to the Default of
+// the type it recurses on.
+func c10OverrideReplacesFieldDefault(ctx *Ctx, r *Report) {
+	n := 0
+	for _, lang := range []string{"python", "php"} {
+		fn := ctx.LookupFunc("internal/jennies/"+lang, "defaultValueForTypeRec")
+		fd, p := ctx.DeclOf(fn)
+		if fd == nil || fd.Body == nil {
+			r.Undecided("anchor lost: %s.defaultValueForTypeRec", lang)
+			continue
+		}
+		info := p.TypesInfo
+		// closures passed to Iterate over the overrides
+		ast.Inspect(fd.Body, func(m ast.Node) bool {
+			c, ok := m.(*ast.CallExpr)
+			if !ok || len(c.Args) != 1 {
+				return true
+			}
+			sel, ok := ast.Unparen(c.Fun).(*ast.SelectorExpr)
+			if !ok || sel.Sel.Name != "Iterate" {
+				return true
+			}
+			lit, ok := c.Args[0].(*ast.FuncLit)
+			if !ok || lit.Type.Params.NumFields() < 1 {
+				return true
+			}
+			// the value parameter of the callback
+			var valueParam types.Object
+			for _, f := range lit.Type.Params.List {
+				for _, nm := range f.Names {
+					valueParam = info.Defs[nm]
+				}
+			}
+			recurses := false
+			ast.Inspect(lit.Body, func(q ast.Node) bool {
+				if rc, ok := q.(*ast.CallExpr); ok {
+					if f := callee(info, rc); f != nil && strings.HasPrefix(f.Name(), "defaultValueForType") {
+						recurses = true
+					}
+				}
+				return true
+			})
+			if !recurses {
+				return true
+			}
+			n++
+			carried := false
+			ast.Inspect(lit.Body, func(q ast.Node) bool {
+				as, ok := q.(*ast.AssignStmt)
+				if !ok || len(as.Lhs) != 1 || len(as.Rhs) != 1 {
+					return true
+				}
+				if s, ok := ast.Unparen(as.Lhs[0]).(*ast.SelectorExpr); ok && s.Sel.Name == "Default" && isIdentOf(info, as.Rhs[0], valueParam) {
+					carried = true
+				}
+				return true
+			})
+			r.Check(carried, "traverse/override-replaces-field-default", lang+".defaultValueForTypeRec carries a non-object override into the recursion", lit.Pos(),
+				"the override is assigned to the Default of the type the recursion is given",
+				lang+".defaultValueForTypeRec recurses on the type of an overridden, reference-typed field without the override: `inner: #Inner | *{e: \"b\"}` with `e: #E` gives Inner(e=E.A) — the field's own default or the first member — while Go writes \"b\"")
+			return true
+		})
+	}
+	r.Count("override loops recursing into reference-typed fields", n)
+	r.Floor("override loops recursing into reference-typed fields", 2)
 }
